@@ -289,6 +289,8 @@ func (e *env) inner(w http.ResponseWriter, r *http.Request) {
 		e.problem("request %d: remote address %q", id, r.RemoteAddr)
 	case !e.realSrv && cv != id:
 		e.problem("request %d: context value %d", id, cv)
+	case !e.realSrv && (r.Context().Value(0) != any(id) || r.Context().Value("logger") != any(id) || r.Context().Value(int64(0)) != any(id)):
+		e.problem("request %d: the context values its client stored under the keys 0, \"logger\" and int64(0) read %v, %v, %v inside the handler", id, r.Context().Value(0), r.Context().Value("logger"), r.Context().Value(int64(0)))
 	case !e.realSrv && r.RequestURI != idRequestURI(id):
 		e.problem("request %d: RequestURI %q", id, r.RequestURI)
 	}
@@ -404,7 +406,13 @@ func mkRequest(id int) *http.Request {
 	req.RequestURI = idRequestURI(id)
 	req.RemoteAddr = idRaddr(id)
 	req.Header.Set("X-Id", strconv.Itoa(id))
-	return req.WithContext(context.WithValue(req.Context(), ctxKey{}, id))
+	// besides a private key type, the request context carries values under the plainest keys there are: whatever
+	// key the middleware uses for its own logger must not collide with them
+	ctx := context.WithValue(req.Context(), ctxKey{}, id)
+	ctx = context.WithValue(ctx, 0, id)        //nolint:staticcheck // deliberately a built-in key type
+	ctx = context.WithValue(ctx, "logger", id) //nolint:staticcheck
+	ctx = context.WithValue(ctx, int64(0), id) //nolint:staticcheck
+	return req.WithContext(ctx)
 }
 
 func expectedBody(id int) string {
